@@ -38,6 +38,27 @@ def tasks(tier, seed):
     ts += SCH.sched_tasks(tier, ['CHECK_C04'], 'sched', ('C04:',), {'schedule_dependent', 'assert', 'deadlock', 'hang'}, digest=True)
     # independence from earlier / concurrent activity in the process: a second File being written at the same time
     ts += SCH.two_file_tasks(tier, 'det', {'assert', 'race', 'memory', 'deadlock', 'hang'}, race=True)
+    # the finished file of a session must not contain bytes that come from never-written memory either (header included)
+    import judge as J
+    from symex import Violation
+
+    def file_judge(ex, st, status):
+        if status != 'ok':
+            return
+        cells = J.out(st, 'file')
+        if cells is None:
+            return
+        bad = [i for i, c in enumerate(cells) if J.has_garbage([c])]
+        if bad:
+            ex.obl_failed += 1
+            ex.violations.append(Violation('uninit_output', 'bytes %s of the finished file depend on never-written memory' % bad[:12],
+                                           ex.model_for(st), list(st.inputs), 'judge'))
+        else:
+            ex.obl_concrete += 1
+    for t in ts:
+        if t.entry == 'h_session':
+            t.judge = file_judge
+            t.kinds = set(t.kinds) | {'uninit_output'}
     meta = dict(
         level='model_checking',
         explanation='Objects live in heap/stack memory whose never-written bytes are distinct unconstrained symbols '
